@@ -62,23 +62,27 @@ func init() {
 
 // ---- verif hooks: trace points and scheduler gates ----------------------------------------------------
 
-var (
-	hookMu    sync.Mutex
-	hookRec   *Recorder // non-nil: record hook lines
-	hookAtt   int
-	hookSeed  uint64 // non-zero: pseudo-random delays at hook points (schedule fuzzing)
-	hookCount uint64
-)
+// The hook function must not synchronise the library's goroutines with each other (a mutex or a shared counter here would
+// order them at every hook point and hide data races of the library from the race detector): its configuration is read
+// with one atomic load of a pointer that only the harness stores.
+type hookCfg struct {
+	rec  *Recorder // non-nil: record hook lines
+	att  int
+	seed uint64 // non-zero: pseudo-random delays at hook points (schedule fuzzing)
+}
+
+var hookCfgV atomic.Value // *hookCfg
 
 // vfHook is installed into the library (build tag verif). It records the point (per-process sequence number from
-// the recorder, goroutine id) and, when schedule fuzzing is on, delays the calling goroutine by a seeded
-// pseudo-random amount: every hook point becomes a place where the scheduler may switch.
+// the recorder, goroutine id) and, when schedule fuzzing is on, delays the calling goroutine by a pseudo-random
+// amount: every hook point becomes a place where the scheduler may switch.
 func vfHook(point string) {
-	hookMu.Lock()
-	rec, att, seed := hookRec, hookAtt, hookSeed
-	hookCount++
-	n := hookCount
-	hookMu.Unlock()
+	cfg, _ := hookCfgV.Load().(*hookCfg)
+	if cfg == nil {
+		cfg = &hookCfg{}
+	}
+	rec, att, seed := cfg.rec, cfg.att, cfg.seed
+	n := uint64(time.Now().UnixNano())
 	if rec != nil {
 		rec.Emit(M{"ev": "hook", "att": att, "p": point, "g": goid()})
 	}
@@ -105,9 +109,7 @@ func vfHook(point string) {
 }
 
 func setHooks(rec *Recorder, att int, seed uint64) {
-	hookMu.Lock()
-	hookRec, hookAtt, hookSeed = rec, att, seed
-	hookMu.Unlock()
+	hookCfgV.Store(&hookCfg{rec: rec, att: att, seed: seed})
 }
 
 // waitBound is "bounded time" (observed latencies are milliseconds).
@@ -989,7 +991,17 @@ func (rs *runState) runAttempt(att int, a AttemptPlan, dsnOverride string) {
 				closed = true
 			default:
 			}
-		case <-time.After(waitBound):
+		case <-time.After(func() time.Duration {
+			// no connection ever reached the master (the attempt failed before or while dialling): there is no socket to
+			// wait for
+			connRec.mu.Lock()
+			acc := connRec.Accepted
+			connRec.mu.Unlock()
+			if !acc && returned {
+				return 150 * time.Millisecond
+			}
+			return waitBound
+		}()):
 		}
 		masterEnded := false
 		select {
